@@ -18,10 +18,10 @@ CLAIMED = {
              "resume/re-cache (tok = data[start:i]); that abstraction is validated by the differential run on every segmentation, not proved.",
         design="4/C06, Appendix B, I"),
     "C07": dict(
-        technique="Coq proof (round trip parse(render m) = meaning m by induction over the grammar; pipelining; decimal/hex length read-back) for body-less, Content-Length-framed and chunked requests and responses + differential run against net/http for the whole restricted grammar",
+        technique="Coq proof (round trip parse(render m) = meaning m by induction over the grammar; pipelining; decimal/hex length read-back) for body-less, Content-Length-framed and chunked requests and responses; processor model: the fold of the parser callbacks into the delivered request/response equals the reference's view field by field, the close decision equals net/http's rule) + differential runs: real parser vs parser model, real processor vs processor model, both vs net/http on the whole restricted grammar",
         text="coq/http/C07.v: for every well-formed request, and every well-formed response on the client side (status line with any code and a reason phrase of one or more words), without a body, framed by Content-Length or chunked without extensions/trailers (any method/target/protocol token/header list with OWS; any body of n < 2^62 arbitrary bytes; any list of non-empty chunks) the model parser, started in a boundary state, "
-             "emits exactly meaning(msg) - the body extracted exactly - and ends in a boundary state with the rest of the stream untouched; lifted to pipelined sequences mixing the three kinds; the parser's integer reader reads back every decimal and hex length (c07_decimal_roundtrip, c07_hex_roundtrip). Chunk extensions on every size line incl. the last chunk (whitespace and ';'-introduced extension of arbitrary bytes): c07_request_chunked_ext_partial, c07_response_chunked_ext_partial. Declared trailers and header blocks of arbitrary shape (any names in any order, repeated, empty values) are covered by coq/respdec/C07Trailers.v: c07_response_chunked_trailers_partial, c07_request_chunked_trailers_partial. The rest of the property's grammar "
-             "(trailers out of order, responses, the connection-close decision, message boundaries) is decided on every run by the "
+             "emits exactly meaning(msg) - the body extracted exactly - and ends in a boundary state with the rest of the stream untouched; lifted to pipelined sequences mixing the three kinds; the parser's integer reader reads back every decimal and hex length (c07_decimal_roundtrip, c07_hex_roundtrip). Chunk extensions on every size line incl. the last chunk (whitespace and ';'-introduced extension of arbitrary bytes): c07_request_chunked_ext_partial, c07_response_chunked_ext_partial. Declared trailers and header blocks of arbitrary shape (any names in any order, repeated, empty values) are covered by coq/respdec/C07Trailers.v: c07_response_chunked_trailers_partial, c07_request_chunked_trailers_partial. What the HANDLER sees is covered by coq/httpproc/C07Proc.v (model of nbhttp/processor.go, tied to it by the same run: 3000+ streams through the real Server/ClientProcessor and the extracted processor model, rendered field by field): c07_delivered_request_partial / c07_delivered_pipeline_partial (the events of one well-formed request, resp. of a pipeline, fold into exactly one delivered request per message with the message's method, target, version, header multimap - every lookup -, Content-Length, body bytes, Host, Transfer-Encoding and close decision), c07_close_decision_is_reference (the CONNECTION_VALUES loop with its break computes net/http's shouldClose: token lists, case, HTTP/1.0 keep-alive), c07_header_map_is_multimap, c07_delivered_response_partial / c07_delivered_responses_partial (client side). The rest of the property's grammar "
+             "(trailers out of order, message boundaries) is decided on every run by the "
              "implementation-side oracle: nbio's real Server/ClientProcessor vs http.ReadRequest/ReadResponse on generated pipelined streams, field by field, one piece and "
              "byte-wise, plus the model/implementation correspondence on the same streams. Partial: see the _partial theorem names.",
         note="Partial: trailer lines out of declaration order, HTAB in header lines, upper-case hex, and extensions together with trailers in one message are not yet theorems; the response theorem says the reason phrase is cut at its first word (what the code does; the harness compares the status code); net/http itself is not modelled (trusted reference). Projection: reason phrase ignored, Host entry of the "
